@@ -90,6 +90,7 @@ def path(ctx, fam):
                 if m is not None:
                     ctx.violation(clause='lossless_print', input=model_chars(m, cs), detail='printed text differs from input',
                                   vkey='lossless_print|' + fam.get('name', 'any'))
+    check_cli(ctx, I, w, cs, acc, printed.chars if acc else None, 'semver', fam)
     # a seeded sample of paths is cross-checked with z3's regular-language solver (independent of the matcher)
     if fam.get('reglan_check'):
         s = z3.Concat(*[z3.StrFromCode(c if not isinstance(c, int) else z3.IntVal(c)) for c in cs]) if len(cs) > 1 else (
@@ -107,6 +108,31 @@ def path(ctx, fam):
                           detail='z3 RegLan cross-check', vkey='accept_iff_grammar|reglan')
         else:
             ctx.tag('reglan_agrees')
+
+
+def check_cli(ctx, I, w, cs, acc, printed, fmt, fam):
+    """`zerv check --format <fmt>` (run_check_command) gives the same verdict and reports the same normal form"""
+    args = Adt('CheckArgs', 0, [StringObj(cs), some(mkstring(fmt))])
+    try:
+        r = I.call('run_check_command', [args])
+    except Panic as e:
+        ctx.violation(clause='panic', input=model_chars(w.get_model(), cs), detail='check: ' + str(e), vkey='panic|check')
+        return
+    ok_ = r.variant == 0
+    if ok_ != acc:
+        ctx.violation(clause='check_verdict', input=model_chars(w.get_model(), cs), detail='zerv check says %s, from_str says %s' % (ok_, acc), vkey='check_verdict|' + fam.get('name', 'any'))
+        return
+    if ok_:
+        msg = list(r.fields[0].chars)
+        same = len(printed) == len(cs) and w.find(z3.Or([a != b for a, b in zip(printed, cs) if not (isinstance(a, int) and isinstance(b, int) and a == b)] or [z3.BoolVal(False)])) is None
+        tail = [41] if not same else None          # ")" closes "(normalized: X)"
+        if not same:
+            exp_tail = [ord(c) for c in '(normalized: '] + list(printed) + [41]
+            got_tail = msg[-len(exp_tail):] if len(msg) >= len(exp_tail) else None
+            bad = got_tail is None or w.find(z3.Or([a != b for a, b in zip(got_tail, exp_tail) if not (isinstance(a, int) and isinstance(b, int) and a == b)] or [z3.BoolVal(False)])) is not None
+            if bad:
+                ctx.violation(clause='check_normal_form', input=model_chars(w.get_model(), cs), detail='zerv check reports a different normal form', vkey='check_nf|' + fam.get('name', 'any'))
+        ctx.tag('check_agrees')
 
 
 def families(tier):
